@@ -519,7 +519,7 @@ fn main() {
     fn repeat_overflow<B: Backend>(bk: &str, st: &mut Stats) {
         for len in 1..=24usize {
             let src = piece(len, 2);
-            let mut counts: Vec<usize> = vec![usize::MAX, usize::MAX / len + 1, (1usize << 63) + 1, usize::MAX / 2 + 2];
+            let mut counts: Vec<usize> = vec![usize::MAX, (usize::MAX / len).wrapping_add(1), (1usize << 63) + 1, usize::MAX / 2 + 2];
             // counts n with len * n overflowing and (len * n) mod 2^64 in 0..=23
             for target in [0usize, 1, len.min(23), 22, 23] {
                 // solve len * n ≡ target (mod 2^64) when possible (odd len: multiply by the inverse)
@@ -533,7 +533,7 @@ fn main() {
                         counts.push(n);
                     }
                 } else if len.is_power_of_two() && target % len == 0 {
-                    let n = (usize::MAX / len + 1).wrapping_add(target / len);
+                    let n = (usize::MAX / len).wrapping_add(1).wrapping_add(target / len);
                     if len.checked_mul(n).is_none() {
                         counts.push(n);
                     }
